@@ -1793,6 +1793,19 @@ class LinAnalysis:
                 st.env[("mulpos", k[1], k[2])] = Lin.const(1)
                 st.add(m - Lin.sym(k[2]))
                 st.add(Lin.sym(k[1]) - Lin.const(1))
+        # two multiples of the same p that differ, differ by at least p
+        ks = [k for k in st.env if k[0] == "mul" and isinstance(st.env[k], Lin)]
+        for i, k1 in enumerate(ks):
+            for k2 in ks[i + 1:]:
+                if k1[2] != k2[2]:
+                    continue
+                for a_, b_ in ((k1, k2), (k2, k1)):
+                    if ("muldiff", a_[1], b_[1]) in st.env:
+                        continue
+                    d = st.env[a_] - st.env[b_]
+                    if st.entails(d - Lin.const(1)):
+                        st.env[("muldiff", a_[1], b_[1])] = Lin.const(1)
+                        st.add(d - Lin.sym(a_[2]))
 
     def resolve_wraps(self, st):
         for k in [k for k in st.env if k[0] == "wrapof"]:
@@ -1906,6 +1919,7 @@ class LinAnalysis:
                         return []
                     if self.track_wraps:
                         self.resolve_wraps(st)
+                    self.refine_products(st)
                     return [st]
                 if st.entails(-v):
                     st.add(-v - Lin.const(1))
@@ -1920,6 +1934,7 @@ class LinAnalysis:
                 return []
             if self.track_wraps:
                 self.resolve_wraps(st)
+            self.refine_products(st)
             return [st]
         if isinstance(v, (Ptr, ObjPtr, AddrOf)):
             return self.assume_nullness(src, v, not truth, st, fr)
